@@ -46,11 +46,14 @@ type Case struct {
 	Meta    string `json:"meta"` // none | encrypted | plaintext
 	ID      string `json:"id"`   // absent | empty | one16 | 16 | 32
 	Human   bool   `json:"human_readable,omitempty"`
-	Graph   string `json:"graph"` // full | num
+	Graph   string `json:"graph"` // full | num | len
 	Num     uint32 `json:"num,omitempty"`
 	Gen     int    `json:"gen,omitempty"`
 	Light   bool   `json:"light_reader,omitempty"` // cross-reference data too large for ref/pdffile: objects located by walking the body
 	Order   *Order `json:"order,omitempty"`        // the order of the Writer calls (absent = sequential); see model.go
+	LenLo   int    `json:"len_lo,omitempty"`       // graph "len": one unfiltered stream of every length in [LenLo, LenHi]; see lengths.go
+	LenHi   int    `json:"len_hi,omitempty"`
+	IO      int    `json:"io_bytes,omitempty"` // direction "write": stream bodies are written in pieces of IO bytes; direction "read": streams are read through a buffer of IO bytes (0 = one Write / io.ReadAll)
 
 	// direction "read"
 	R       int    `json:"r,omitempty"`
@@ -119,8 +122,11 @@ type runner struct {
 }
 
 func (rn *runner) graphOf(c *Case) *graph {
-	if c.Graph == "num" {
+	switch c.Graph {
+	case "num":
 		return rn.num
+	case "len":
+		return lenGraph(c.LenLo, c.LenHi)
 	}
 	return rn.full
 }
@@ -144,6 +150,9 @@ func (rn *runner) one(c Case) {
 func (c *Case) describe() string {
 	if c.Dir == "read" {
 		s := fmt.Sprintf("reference-written R%d V%d %d bits aes=%v header %s user %q owner %q P %#x meta %s id %s hex=%v ownerFirstN=%v", c.R, c.V, c.KeyBits, c.AES, c.Version, c.User, c.Owner, c.Perm, c.Meta, c.ID, c.Hex, c.OwnerN)
+		if c.Graph == "len" {
+			s += fmt.Sprintf(" streams of every length %d..%d, read through %s", c.LenLo, c.LenHi, ioName(c.IO, "io.ReadAll", "a buffer of %d bytes"))
+		}
 		if c.Note != "" {
 			s += " (" + c.Note + ")"
 		}
@@ -152,6 +161,9 @@ func (c *Case) describe() string {
 	s := fmt.Sprintf("version %s user %q owner %q perm %#x meta %s id %s graph %s", c.Version, c.User, c.Owner, c.Perm, c.Meta, c.ID, c.Graph)
 	if c.Graph == "num" {
 		s += fmt.Sprintf(" base %d %d", c.Num, c.Gen)
+	}
+	if c.Graph == "len" {
+		s += fmt.Sprintf(" streams of every length %d..%d, each written in %s", c.LenLo, c.LenHi, ioName(c.IO, "one Write", "pieces of %d bytes"))
 	}
 	if c.Human {
 		s += " human-readable"
@@ -163,6 +175,13 @@ func (c *Case) describe() string {
 		s += " (" + c.Note + ")"
 	}
 	return s
+}
+
+func ioName(n int, zero, format string) string {
+	if n == 0 {
+		return zero
+	}
+	return fmt.Sprintf(format, n)
 }
 
 // checkWritten is direction 1 for one file.
@@ -202,7 +221,7 @@ func (rn *runner) checkWritten(c *Case) []failure {
 	}
 	pu, _ := stdsec.Prepare(c.User, fa.R)
 	po, _ := stdsec.Prepare(c.Owner, fa.R)
-	r.DistinctS(fmt.Sprintf("w|%s|%s|%s|%d|%v|%s|%d|%d|%x|%x|%s", c.Version, c.Meta, c.ID, c.Perm, c.Human, c.Graph, c.Num, c.Gen, pu, po, c.Order.key()))
+	r.DistinctS(fmt.Sprintf("w|%s|%s|%s|%d|%v|%s|%d|%d|%x|%x|%s|%d|%d|%d", c.Version, c.Meta, c.ID, c.Perm, c.Human, c.Graph, c.Num, c.Gen, pu, po, c.Order.key(), c.LenLo, c.LenHi, c.IO))
 	kind := "table"
 	if fa.xrefStream {
 		kind = "xrefstream"
@@ -276,6 +295,10 @@ func selfTest(r *ev.Run) bool {
 		r.Infra(err.Error())
 		return false
 	}
+	if err := lenSelfTest(); err != nil {
+		r.Infra(err.Error())
+		return false
+	}
 	return true
 }
 
@@ -287,7 +310,7 @@ func Run(tier string) int {
 	}
 	r := ev.New("C10", tier, "exploration", budget)
 	rn := &runner{r: r, full: fullGraph(), num: numGraph(), rev: reverseGraph()}
-	r.Rule("a case is one file. Direction 'write': (version, user password, owner password [drawn from the reduced alphabet or from the length-structure family around the truncation bounds 32 and 127], permission set, metadata mode, ID mode[, base object number and generation][, write order = order of the Put/OpenStream/Write/Close/WriteCompressed calls]) written by the Writer and judged by ref/pdffile + ref/stdsec; direction 'read': (revision, V, key length, cipher, passwords, P, metadata mode, ID mode, string syntax) written by ref/stdsec + the serialiser of this package and opened by the Reader with the user and with the owner password. evaluations = files written (+ Reader opens in direction 'read'); distinct = distinct tuples of encrypted files with the passwords replaced by their prepared form (passwords the standard's preparation identifies count once); files the Writer refuses are counted under rejected:* and are not distinct cases")
+	r.Rule("a case is one file. Direction 'write': (version, user password, owner password [drawn from the reduced alphabet or from the length-structure family around the truncation bounds 32 and 127], permission set, metadata mode, ID mode[, base object number and generation][, write order = order of the Put/OpenStream/Write/Close/WriteCompressed calls][, a run of consecutive stream lengths from the stream-length family: every length up to a bound and every length in a window around the powers of two above it, and the size of the pieces in which the bodies are written]) written by the Writer and judged by ref/pdffile + ref/stdsec; direction 'read': (revision, V, key length, cipher, passwords, P, metadata mode, ID mode, string syntax[, a run of stream lengths and the consumer's read buffer size]) written by ref/stdsec + the serialiser of this package and opened by the Reader with the user and with the owner password. evaluations = files written (+ Reader opens in direction 'read'); distinct = distinct tuples of encrypted files with the passwords replaced by their prepared form (passwords the standard's preparation identifies count once); files the Writer refuses are counted under rejected:* and are not distinct cases")
 	r.Assume("ref/stdsec (Algorithms 1-13 from ISO 32000-2 7.6 / ISO 32000-1 / Adobe Supplement ExtensionLevel 3 for revision 5) and ref/pdffile are self-tested at start",
 		"Algorithm 3 (c): both the letter (MD5 over 16 bytes) and the de-facto reading (first n bytes) are accepted for /O of revision 3 files with keys shorter than 128 bits; the reading found is reported as an outcome",
 		"crypt filter /Length in bytes or in bits is accepted (table 27 vs. deployed practice)",
@@ -308,6 +331,7 @@ func Run(tier string) int {
 	r.Dim("num_gen_pairs", numPairs)
 	r.Dim("num_gen_pairs_big", bigPairs)
 	r.Dim("full_graph_objects", len(rn.full.items))
+	r.Dim("full_graph_streams_tagged_like_exempt_kinds", taggedKinds)
 
 	var jobs []Case
 	// (a) passwords x versions x metadata x ID x permissions, full graph
@@ -397,6 +421,21 @@ func Run(tier string) int {
 		r.Dim(fmt.Sprintf("long_passwords_bound_%d", b), len(longPasswords(b)))
 	}
 	r.Dim("long_password_roles", ev.Pick(r, pwRoles, append(append([]string{}, pwRoles...), "every (user, owner) pair of the same bound")))
+	// (g) stream lengths (lengths.go): direction 1
+	lenW := lenWriteJobs(r.Thorough())
+	jobs = append(jobs, lenW...)
+	nG := len(lenW)
+	nLenStreams := len(lenFamily(r.Thorough()))
+	r.Dim("stream_length_rule", fmt.Sprintf("one unfiltered stream of every length in [0, %d] and in [2^k-%d, 2^k+%d] for every k in the powers; consecutive lengths share a file (at most %d streams, %d bytes of bodies)", lenFullRange(r.Thorough()), lenWindow, lenWindow, lenPerFile, lenBytesPerFile))
+	r.Dim("stream_length_full_range_upto", lenFullRange(r.Thorough()))
+	r.Dim("stream_length_window_powers_of_two", lenPowers(r.Thorough()))
+	r.Dim("stream_length_window_halfwidth", lenWindow)
+	r.Dim("stream_lengths", nLenStreams)
+	r.Dim("stream_length_files_per_configuration", len(lenBlocks(r.Thorough())))
+	r.Dim("stream_length_write_versions", lenWriteVersions(r.Thorough()))
+	r.Dim("stream_length_write_piece_sizes", lenWritePieces)
+	r.Dim("stream_length_read_buffer_sizes", lenReadBuffers)
+	r.Dim("stream_length_read_configurations", len(lenReadConfigs(r.Thorough())))
 	// (c) the largest object numbers: cross-reference streams only in the
 	// quick tier (a classic table has 2^24 entries of 20 bytes)
 	bigVersions := ev.Pick(r, []string{"1.5", "1.7", "2.0"}, []string{"1.3", "1.4", "1.5", "1.6", "1.7", "2.0"})
@@ -410,6 +449,10 @@ func Run(tier string) int {
 	rjobs := reverseJobs(r.Thorough())
 	lpr := longPwReadJobs(r.Thorough())
 	rjobs = append(rjobs, lpr...)
+	lenR := lenReadJobs(r.Thorough())
+	rjobs = append(rjobs, lenR...)
+	r.Dim("files_stream_length_space_written", nG)
+	r.Dim("files_stream_length_space_reference_written", len(lenR))
 	r.Dim("files_long_password_space_written", nF)
 	r.Dim("files_long_password_space_reference_written", len(lpr))
 	r.Dim("files_config_space", nA)
@@ -477,14 +520,20 @@ func Run(tier string) int {
 	pick(nA+nB, nA+nB+nE, func(c *Case) bool {
 		return c.Version == "1.3" && c.Graph == "num" && c.Num == 65535 && c.Order.Kind == "as-stream"
 	})
-	pick(nA+nB+nE+nF, len(jobs), func(c *Case) bool {
+	pick(nA+nB+nE+nF+nG, len(jobs), func(c *Case) bool {
 		return c.R == 5 && c.User == "ä" && c.Owner == "ab" && c.Meta == "plaintext" && c.Hex
 	})
 	pick(nA+nB+nE, nA+nB+nE+nF, func(c *Case) bool {
 		return c.Version == "2.0" && len(c.User) > 127 && !utf8.RuneStart(c.User[127]) && c.Owner == ""
 	})
-	pick(nA+nB+nE+nF, len(jobs), func(c *Case) bool {
+	pick(nA+nB+nE+nF+nG, len(jobs), func(c *Case) bool {
 		return c.Space == "long-passwords" && c.R == 6 && len(c.Owner) > 127 && !utf8.RuneStart(c.Owner[127])
+	})
+	pick(nA+nB+nE+nF, nA+nB+nE+nF+nG, func(c *Case) bool {
+		return c.Version == "1.7" && c.LenLo <= 4096 && 4096 <= c.LenHi && c.IO != 0
+	})
+	pick(nA+nB+nE+nF+nG, len(jobs), func(c *Case) bool {
+		return c.Space == "stream-lengths" && c.R == 6 && c.LenLo <= 4096 && 4096 <= c.LenHi && c.IO == 37
 	})
 	return r.Finish()
 }
